@@ -90,6 +90,22 @@ def chain_with_failing_writes(kind, n):
     return h + opens + closes
 
 
+def chain_with_failing_reads(kind, n):
+    """Datagram reads re-issued from their callbacks, four of five meeting a datagram without payload (the read
+    fails at once with EOF): a read that fails inline is an immediate completion too, counted against the limit
+    and counted back when its callback returns."""
+    h = [E("Reset", kinds=[kind], cls="chain", lim=32, n=0)]
+    for i in range(1, n + 1):
+        h.append(E("Env", api="sendempty" if i % 5 != 0 else "send", o=1, n=1))
+    opens, closes = [], []
+    for i in range(1, n + 1):
+        empty = i % 5 != 0
+        opens += [E("Call", api="readfromempty" if empty else "readfrom", o=1, op=i, dir="R", n=1),
+                  E("CbB", op=i, err="eof" if empty else "nil", n=0 if empty else 1)]
+        closes = [E("CbE", op=i), E("Ret", op=i)] + closes
+    return h + opens + closes
+
+
 def long_chains(tier):
     hs = []
     lens = [40] if tier == "quick" else [40, 100]
@@ -112,6 +128,8 @@ def long_chains(tier):
         hs.append(chain_after_partial_readall(k, 40))
     for k in ("pkt", "mcp"):
         hs.append(chain_with_failing_writes(k, 120))
+    for n in (3, 120):
+        hs.append(chain_with_failing_reads("pkt", n))
     return hs
 
 
